@@ -32,7 +32,7 @@ static const char *DURN[] = { "0", "1us", "999us", "1ms", "5ms", "1e9s" };
 static const int64_t CDUR[] = { 1000, 5000, 0 };   /* common-timeout durations */
 
 enum opc { O_END = 0, O_ADD, O_ADDNULL, O_ADDC, O_DEL, O_RMT, O_ACTIVE, O_LATER, O_PRIO, O_NEW, O_FREE, O_LOOP, O_ADV, O_RAISE,
-	O_MAXCLR, O_VIRT, O_EXIT, O_BREAK, O_CONT, O_DEFER, O_WNEW, O_WFREE, O_NOP };
+	O_MAXCLR, O_VIRT, O_EXIT, O_BREAK, O_CONT, O_DEFER, O_WNEW, O_WFREE, O_LATERACT, O_NOP };
 struct op { short code, a, b; };
 #define MAXOPS 96
 static struct op OPS[MAXOPS]; static int nops;
@@ -353,6 +353,8 @@ static void build_ops(void)
 			else for (int d = 0; d < p_durs; d++) op_push(O_ADD, i, d);
 			if (i == 2 || persist) for (int c = 0; c < p_cdurs; c++) op_push(O_ADDC, i, c);
 			op_push(O_DEL, i, 0); op_push(O_RMT, i, 0);
+			/* an activation "for another reason" of the persistent timer */
+			if (persist && !(kind_what[S[i].kind] & (EV_READ | EV_WRITE))) op_push(O_ACTIVE, i, EV_READ);
 		}
 		for (int d = 1; d < p_durs; d++) op_push(O_ADV, d, 0);
 		op_push(O_LOOP, EVLOOP_ONCE, 0); op_push(O_LOOP, EVLOOP_NONBLOCK, 0);
@@ -423,6 +425,8 @@ static void build_scripts(int ctx, int self)
 	} else if (PROP == 3) {
 		for (int i = 0; i < nslots; i++) op_push(O_ACTIVE, i, EV_READ);
 		if (ctx == 0) op_push(O_LATER, self, EV_WRITE);
+		/* event_active_later_ + event_active on the most urgent event in one callback */
+		if (!(ctx == 0 && self == 0)) op_push(O_LATERACT, 0, 0);
 		op_push(O_BREAK, 0, 0); op_push(O_EXIT, -1, 0); op_push(O_CONT, 0, 0);
 		op_push(O_ADV, 3, 0);
 		op_push(O_DEFER, 0, 0);
@@ -446,6 +450,7 @@ static void apply_op(const struct op *o)
 	case O_RMT: if (S[i].exists) { mc_observe("r%d ", i); do_rmt(i); } break;
 	case O_ACTIVE: if (S[i].exists) { char f[8]; int nc = 1 + ((o->b >> 8) & 3); mc_observe("A%d%sx%d ", i, flagstr(o->b & 0xff, f), nc); do_active(i, o->b & 0xff, nc); } break;
 	case O_LATER: if (S[i].exists) { mc_observe("L%d ", i); do_later(i, o->b); } break;
+	case O_LATERACT: if (S[i].exists) { mc_observe("LA%d ", i); do_later(i, EV_WRITE); do_active(i, EV_READ, 1); } break;
 	case O_PRIO: if (S[i].exists) { mc_observe("p%d:%d ", i, o->b); do_prio(i, o->b); } break;
 	case O_NEW: mc_observe("n%d ", i); do_new(i); break;
 	case O_FREE: mc_observe("f%d ", i); do_free(i); break;
